@@ -441,6 +441,9 @@ def run(report, index, tier):
             'set': set, 'sorted': sorted,
             'reversed': lambda x: list(reversed(list(x))),
             'itemgetter': operator.itemgetter, 'next': next,
+            'NameGenerator': lambda skip=None, charset=None: iter(
+                n for n in ['a', 'b', 'c', 'd', 'e', 'f', 'g', 'h', 'i',
+                            'j', 'k', 'l'] if n not in (skip or ())),
             'type': lambda o: o.__dict__['_cls']},
             class_methods=cm, max_steps=200000, class_own=class_own,
             class_bases=class_bases)
@@ -474,10 +477,16 @@ def run(report, index, tier):
     # build_remap_symbols: only declared names, distinct, outside reserved
     gen_calls = []
 
+    NAMES = ['a', 'b', 'c', 'd', 'e', 'f', 'g', 'h', 'i', 'j', 'k', 'l']
+    # `b` plays the role of a reserved word: the generator the obfuscator
+    # hands down was seeded with it.  A generator built afresh from the
+    # class (the NameGenerator stand-in of mkev) does not know it.
+    RESERVED = {'b'}
+
     def name_generator(skip=()):
         gen_calls.append(set(skip))
-        return iter(n for n in ['a', 'b', 'c', 'd', 'e', 'f', 'g', 'h', 'i']
-                    if n not in skip)
+        return iter(n for n in NAMES
+                    if n not in skip and n not in RESERVED)
     ev = mkev()
     ev.call(cm['Scope']['build_remap_symbols'],
             [('pyfunc', name_generator), False], self_obj=C)
@@ -628,6 +637,21 @@ def run(report, index, tier):
         except (Raised, AnalysisError) as e:
             raise AnalysisError('cannot evaluate build_remap_symbols: %s'
                                 % e)
+        used = {}
+        for sc in all_scopes(root):
+            for orig, new in (sc.remapped_symbols.items()
+                              if sc.has('remapped_symbols') else ()):
+                used.setdefault(new, []).append(orig)
+        r5.check(not (set(used) & RESERVED), 'generated names avoid the '
+                 'reserved words: %s' % label, label,
+                 'the variable(s) %s are renamed to %s, a name the '
+                 'generator handed down by the obfuscator was told to skip '
+                 '(a reserved word): some scope creates its own generator '
+                 'instead of deriving it' % (
+                     sorted(sum((v for k, v in used.items()
+                                 if k in RESERVED), [])),
+                     sorted(set(used) & RESERVED)),
+                 where='handlers/obfuscation.py:build_remap_symbols')
         for sc in all_scopes(root):
             names = sorted(visible(sc))
             out = {}
